@@ -2,7 +2,7 @@
 # Sensitivity suite: for every confirmed change in seeded/<id>/ apply patch.diff to a throw-away worktree of /repo
 # and run the quick check of the property it breaks (plus the other checks listed in its meta.json "caught_by").
 # Writes seeded/MATRIX.md. A row "MISSED" means the property's own check no longer detects that change.
-cd /verif
+cd "$(cd "$(dirname "$0")" && pwd)"
 out=seeded/MATRIX.md
 echo "| seeded change | breaks | own check | other checks that also report it |" > $out.tmp
 echo "|---|---|---|---|" >> $out.tmp
@@ -10,7 +10,7 @@ for d in seeded/*/; do
   id=$(basename $d); [ -f $d/meta.json ] || continue
   prop=$(python3 -c "import json;print(json.load(open('$d/meta.json'))['breaks_property'])")
   others=$(python3 -c "import json;m=json.load(open('$d/meta.json'));print(' '.join(c for c in m['caught_by'] if c!=m['breaks_property']))")
-  res=$(./seedcheck.sh /verif/$d/patch.diff $prop $others 2>&1)
+  res=$(./seedcheck.sh $(pwd)/$d/patch.diff $prop $others 2>&1)
   own=$(echo "$res" | grep "^$prop " | grep -q "exit=1" && echo "caught" || echo "MISSED")
   oth=""
   for o in $others; do echo "$res" | grep "^$o " | grep -q "exit=1" && oth="$oth $o"; done
